@@ -295,6 +295,7 @@ int pv_static_init(void);                               /* number of ranges foun
 uint64_t pv_static_digest(void);
 const char* pv_static_diff(void);                       /* after a digest mismatch: which object / offset changed (static text) */
 void pv_static_snapshot(void);
+extern bool pv_static_probe_in_callbacks;               /* also look while the library is inside a dependency callback (single-threaded drivers only) */
 
 /* ------------------------------------------------------------------ observation helpers */
 typedef struct pv_obs {
@@ -319,6 +320,10 @@ typedef struct pv_conc_result { uint64_t good, bad; int leaked; char first[400];
 void pv_concurrent(int nthreads, int iters, uint64_t seed, int yield_pct, pv_conc_fn fn, void* user, pv_conc_result* out);
 /* records the outcome under "<prop>/<key>" / counter; returns true if every thread was clean */
 bool pv_concurrent_verdict(const pv_conc_result* res, int nthreads, int iters, const char* vio_key, const char* counter);
+
+/* runs fn in a forked child (a copy of this process as it is now: whatever the library has or has not initialised yet) and
+ * returns its return value (0..200), or -signal if the child was killed, or -1000 if it did not finish within `seconds` */
+int pv_fork_case(int (*fn)(void* arg), void* arg, int seconds);
 
 /* ------------------------------------------------------------------ generators */
 void pv_gen_secret(pv_rng* r, uint8_t secret[PV_SECRET]);        /* boundary-biased */
